@@ -21,6 +21,14 @@ def _body(fn):
     return [s for s in fn.body if not (isinstance(s, ast.Expr) and isinstance(s.value, ast.Constant)) and not isinstance(s, (ast.Import, ast.ImportFrom))]
 
 
+def _super_shape(fn, what):
+    """The local handed to `super().__init__(dtype, <shape>)`: the shape the operator reports."""
+    calls = [c for c in ast.walk(fn) if isinstance(c, ast.Call) and _nospace(unparse(c.func)) == "super().__init__" and len(c.args) == 2 and isinstance(c.args[1], ast.Name)]
+    if len(calls) != 1:
+        raise AnalysisError("%s: no single super().__init__(dtype, <name>) call" % what)
+    return calls[0].args[1].id
+
+
 def _nospace(t):
     return t.replace(" ", "")
 
@@ -205,7 +213,7 @@ def discrete_init(ctx, r):
     effs2 = dispatch.effects(in2.body, {"self._operators[%s, %s]" % (I2, J2): "‹op›"}, "BlockedDiscreteOperator.__init__")
     r.check(okz and not [e for e in effs2 if e[0] == "store"], "discrete init: zero fill", BL, "BlockedDiscreteOperator.__init__", l2.lineno, "zero operators for empty slots",
             "an empty slot (i, j) is filled with `%s`, expected a zero operator of shape (row size i, column size j); filled slots overwritten: %s" % (v, bool([e for e in effs2 if e[0] == "store"])))
-    shp = [s for s in fn.body if isinstance(s, ast.Assign) and unparse(s.targets[0]) == "shape"]
+    shp = [s for s in fn.body if isinstance(s, ast.Assign) and unparse(s.targets[0]) == _super_shape(fn, "BlockedDiscreteOperator.__init__")]
     oks = len(shp) == 1 and _nospace(unparse(shp[0].value)) in ("(_np.sum(self._rows),_np.sum(self._cols))", "(sum(self._rows),sum(self._cols))", "(self._rows.sum(),self._cols.sum())")
     r.check(oks, "discrete init: shape", BL, "BlockedDiscreteOperator.__init__", shp[0].lineno if shp else fn.lineno, "blocked discrete shape", "shape is `%s`, expected (sum of row sizes, sum of column sizes)" % (unparse(shp[0].value) if shp else None))
 
@@ -381,6 +389,8 @@ def generalized(ctx):
     defs = roles.Defs(fn)
     S = roles.stores(fn.body, defs)
     incs = [s for s in S if s.op == "Add=" and isinstance(s.tnode, ast.Subscript) and len(s.loops) == 1 and not s.guards]
+    SH = _super_shape(fn, "GeneralizedDiscreteBlockedOperator.__init__")
+    incs = [s for s in incs if isinstance(s.tnode.value, ast.Name) and s.tnode.value.id == SH]
     got = {}
     for s in incs:
         l = s.loops[0]
@@ -414,7 +424,7 @@ def generalized(ctx):
         if len(cd) == 1:
             t = {}
             for same in (True, False):
-                t[same] = any(x[0] == "raise" for x in dispatch.effects(after, {cd[0]: 9, "shape[1]": 9 if same else 8, "shape": (3, 9 if same else 8)}, "x"))
+                t[same] = any(x[0] == "raise" for x in dispatch.effects(after, {cd[0]: 9, "%s[1]" % SH: 9 if same else 8, SH: (3, 9 if same else 8)}, "x"))
             okw = t == {True: False, False: True}
     r.check(okw, "row width check", BL, "GeneralizedDiscreteBlockedOperator.__init__", chk[0].lineno, "generalized discrete row-width check", "a row whose total width differs from the first row's is not rejected (or equal widths are)")
     # (3) matmat
